@@ -61,7 +61,12 @@ pub fn apath_valid(s: &str) -> bool {
 /// Block names are 128 hex digits; the specification only needs them as injective ids, so
 /// they are abbreviated (collisions among the few dozen blocks of a scenario are not credible).
 pub fn short(h: &str) -> String {
-    h.chars().take(16).collect()
+    // a prefix for readability plus a digest of the whole name, so that names differing anywhere
+    // get different ids
+    // (hexadecimal digits are case-insensitive: "AB" and "ab" name the same block)
+    let h = h.to_ascii_lowercase();
+    let d = blake2_rfc::blake2b::blake2b(4, &[], h.as_bytes());
+    format!("{}-{}", h.chars().take(8).collect::<String>(), hex::encode(d.as_bytes()))
 }
 
 fn clamp_i32(x: i64) -> i64 {
@@ -99,12 +104,19 @@ pub fn decode_hunk(bytes: &[u8]) -> Value {
         Err(_) => return payload("garbage"),
     };
     match serde_json::from_slice::<Vec<RawEntry>>(&raw) {
-        Ok(es) => {
+        // the documented value spaces: a kind is one of three words (plus "Unknown", which
+        // readers have always had to tolerate), a block hash is 128 hex digits
+        Ok(es)
+            if es.iter().all(|e| {
+                matches!(e.kind.as_str(), "File" | "Dir" | "Symlink" | "Unknown")
+                    && e.addrs.iter().all(|a| a.hash.len() == 128 && a.hash.bytes().all(|c| c.is_ascii_hexdigit()))
+            }) =>
+        {
             let mut p = payload("ok");
             p["es"] = Value::Array(es.iter().map(entry_json).collect());
             p
         }
-        Err(_) => payload("garbage"),
+        _ => payload("garbage"),
     }
 }
 
